@@ -1,4 +1,6 @@
 import JominiModel.Model.Json
+import JominiModel.Model.TextDe
+import JominiModel.Model.Writer
 import JominiModel.Model.Dom
 import JominiModel.Spec.Dom
 import JominiModel.Proofs.Dom
@@ -584,5 +586,231 @@ theorem json_groups (fs : List Json.FieldE) :
     simpa [Json.buildGroups, proj] using proj_build fs []
   rw [hp] at h
   exact ⟨h.trans (Dom.fieldGroups_eq_groupBy _), h⟩
+
+
+/-! ### text deserializer model (Model/TextDe.lean) → Dom model -/
+
+def tOp : TextDe.Op → Dom.Op
+  | .eq => .eq | .lt => .lt | .le => .le | .gt => .gt | .ge => .ge
+  | .ne => .ne | .exact => .exact | .exst => .exists_
+
+def tTok : TextDe.TTok → Dom.TTok
+  | .arr e m => .array e m
+  | .obj e m => .object e m
+  | .mixedC => .mixedContainer
+  | .unq s => .unquoted s
+  | .quo s => .quoted s
+  | .param s => .parameter s
+  | .undef s => .undefinedParameter s
+  | .op o => .operator (tOp o)
+  | .end_ i => .end_ i
+  | .hdr s => .header s
+
+def tTape (toks : List TextDe.TTok) : Dom.Tape := (toks.map tTok).toArray
+
+/-- the TextDe model has one failure outcome for its DOM walk: `panic` (fuel exhaustion included) -/
+def dOut {α : Type} : Dom.Out α → TextDe.R α
+  | .ok a => .ok a
+  | .panic => .error .panic
+  | .fuel => .error .panic
+
+@[simp] theorem tTape_get (toks : List TextDe.TTok) (i : Nat) : (tTape toks)[i]? = (toks[i]?).map tTok := by
+  simp [tTape]
+
+@[simp] theorem tTape_size (toks : List TextDe.TTok) : (tTape toks).size = toks.length := by simp [tTape]
+
+theorem tTok_mixed (tok : TextDe.TTok) : tTok tok = .mixedContainer ↔ tok = .mixedC := by
+  cases tok <;> simp [tTok]
+
+theorem textde_nextIdxHeader (toks : List TextDe.TTok) (idx : Nat) :
+    TextDe.nextIdxHeader toks idx = dOut (Dom.nextIdxHeader (tTape toks) idx) := by
+  unfold TextDe.nextIdxHeader Dom.nextIdxHeader TextDe.tokAt
+  cases h : toks[idx]? with
+  | none => simp [dOut, h]
+  | some tok => cases tok <;> simp [dOut, tTok, Dom.nextIdxHeaderTok, h]
+
+theorem textde_nextIdxValues (toks : List TextDe.TTok) (idx : Nat) :
+    TextDe.nextIdxValues toks idx = dOut (Dom.nextIdxValues (tTape toks) idx) := by
+  unfold TextDe.nextIdxValues Dom.nextIdxValues TextDe.tokAt
+  cases h : toks[idx]? with
+  | none => simp [dOut, h]
+  | some tok => cases tok <;> simp [dOut, tTok, Dom.nextIdxValuesTok, h]
+
+/-- `next_idx`: identical for every tape, index and fuel -/
+theorem textde_nextIdxF (toks : List TextDe.TTok) : ∀ (f idx : Nat),
+    TextDe.nextIdx toks f idx = dOut (Dom.nextIdxF f (tTape toks) idx) := by
+  intro f
+  induction f with
+  | zero => intro idx; simp [TextDe.nextIdx, Dom.nextIdxF, dOut]
+  | succ f ih =>
+    intro idx
+    rw [TextDe.nextIdx, Dom.nextIdxF]
+    unfold TextDe.tokAt
+    cases h : toks[idx]? with
+    | none => simp [dOut, h]
+    | some tok =>
+      cases tok <;> simp [dOut, tTok, h]
+      · exact ih (idx + 1)
+      · exact textde_nextIdxHeader toks (idx + 1)
+
+theorem textde_nextIdx (toks : List TextDe.TTok) (idx : Nat) :
+    TextDe.nextIdx toks (toks.length + 1) idx = dOut (Dom.nextIdx (tTape toks) idx) := by
+  unfold Dom.nextIdx Dom.fuelOf
+  simpa using textde_nextIdxF toks (toks.length + 1) idx
+
+theorem textde_remainder (toks : List TextDe.TTok) (ti e : Nat) :
+    TextDe.remainderOf toks ti e = Dom.remainder (tTape toks) ti e := by
+  unfold TextDe.remainderOf Dom.remainder
+  simp only [tTape_get]
+  cases h : toks[ti]? with
+  | none => simp
+  | some tok =>
+    cases tok <;> simp [tTok]
+    rename_i y
+    cases h2 : toks[y]? with
+    | none => simp
+    | some tk => cases tk <;> simp [tTok]
+
+def tProj (r : Option (Dom.Field × Nat)) : Option (Bytes × Option Dom.Op × Nat × Nat) :=
+  r.map fun p => (p.1.keyBytes, p.1.op, p.1.valueIdx, p.2)
+
+def tItemOp (r : Option (Bytes × Option TextDe.Op × Nat × Nat)) : Option (Bytes × Option Dom.Op × Nat × Nat) :=
+  r.map fun p => (p.1, p.2.1.map tOp, p.2.2.1, p.2.2.2)
+
+def TextDe.isKey : TextDe.TTok → Bool
+  | .quo _ | .unq _ | .param _ | .undef _ => true
+  | _ => false
+
+/-- `FieldsIter::next`, one step, every tape and state: same item (key bytes, operator, value
+index, next `token_ind`) and same panic / finished outcome, except on the `debug_assert!` arm. -/
+theorem textde_fieldsNext (toks : List TextDe.TTok) (ti e : Nat)
+    (hkey : ∀ tok, toks[ti]? = some tok → ti < e → tok = .mixedC ∨ TextDe.isKey tok = true) :
+    (TextDe.fieldsNext toks ti e).map tItemOp = (dOut (Dom.fieldsNext (tTape toks) ti e)).map tProj := by
+  unfold TextDe.fieldsNext Dom.fieldsNext TextDe.tokAt
+  by_cases hge : ti ≥ e
+  · simp [hge, dOut, tItemOp, tProj, Except.map]
+  · simp only [hge, if_false, tTape_get]
+    cases h : toks[ti]? with
+    | none => simp [dOut, Except.map]
+    | some tok =>
+      rcases hkey tok h (by omega) with hm | hk
+      · subst hm; simp [dOut, tItemOp, tProj, Except.map, tTok, Dom.TTok.keyScalar?]
+      · cases h1 : toks[ti + 1]? with
+        | none => cases tok <;> simp [TextDe.isKey] at hk <;> simp [dOut, Except.map, tTok, Dom.TTok.keyScalar?]
+        | some nx =>
+          cases tok <;> simp [TextDe.isKey] at hk <;> cases nx <;>
+            simp only [Option.map_some, tTok, Dom.TTok.keyScalar?, Dom.opValueOf, textde_nextIdx] <;>
+            first
+              | (cases hq : Dom.nextIdx (tTape toks) (ti + 1) <;> simp [dOut, Except.map, tItemOp, tProj, hq]; done)
+              | (cases hq : Dom.nextIdx (tTape toks) (ti + 2) <;> simp [dOut, Except.map, tItemOp, tProj, hq]; done)
+
+theorem textde_go (toks : List TextDe.TTok) : ∀ f s,
+    TextDe.readArray.go toks f s = dOut (Dom.mixedStartF f (tTape toks) s) := by
+  intro f
+  induction f with
+  | zero => intro s; simp [TextDe.readArray.go, Dom.mixedStartF, dOut]
+  | succ f ih =>
+    intro s
+    rw [TextDe.readArray.go, Dom.mixedStartF]
+    have hiff : (toks[s]? = some TextDe.TTok.mixedC) ↔ ((tTape toks)[s]? = some Dom.TTok.mixedContainer) := by
+      simp only [tTape_get]
+      cases toks[s]? with
+      | none => simp
+      | some tok => simp [tTok_mixed]
+    by_cases hm : toks[s]? = some TextDe.TTok.mixedC
+    · simp [hm, hiff.mp hm, dOut]
+    · have hm' : ¬ ((tTape toks)[s]? = some Dom.TTok.mixedContainer) := fun hc => hm (hiff.mpr hc)
+      rw [if_neg hm, if_neg hm', textde_nextIdx]
+      cases Dom.nextIdx (tTape toks) s with
+      | ok n => simp [dOut, ih]
+      | panic => simp [dOut]
+      | fuel => simp [dOut]
+
+/-- `ValueReader::read_array`: identical (reader or panic) for every tape and index -/
+theorem textde_readArray (toks : List TextDe.TTok) (i : Nat) :
+    TextDe.readArray toks i = dOut (Dom.readArray (tTape toks) i) := by
+  unfold TextDe.readArray Dom.readArray TextDe.tokAt
+  simp only [tTape_get]
+  cases h : toks[i]? with
+  | none => simp [dOut]
+  | some tok =>
+    cases tok with
+    | obj e m =>
+      cases m with
+      | false => simp [dOut, tTok]
+      | true =>
+        simp only [Option.map_some, tTok, textde_go, Dom.fuelOf, tTape_size]
+        cases Dom.mixedStartF (toks.length + 1) (tTape toks) (i + 1) <;> simp [dOut]
+    | hdr s =>
+      simp only [Option.map_some, tTok, textde_nextIdx]
+      cases Dom.nextIdx (tTape toks) (i + 1) <;> simp [dOut]
+    | _ => simp [dOut, tTok]
+
+
+/-! ### writer model (Model/Writer.lean, the walk behind `writeTape`) → Dom model -/
+
+def wOp : Writer.Op → Dom.Op
+  | .lt => .lt | .le => .le | .gt => .gt | .ge => .ge
+  | .ne => .ne | .exact => .exact | .eq => .eq | .exists => .exists_
+
+def wTok : Writer.Tok → Dom.TTok
+  | .array e m => .array e m
+  | .object e m => .object e m
+  | .mixedContainer => .mixedContainer
+  | .unquoted s => .unquoted s
+  | .quoted s => .quoted s
+  | .parameter s => .parameter s
+  | .undefinedParameter s => .undefinedParameter s
+  | .operator o => .operator (wOp o)
+  | .end i => .end_ i
+  | .header s => .header s
+
+def wTape (toks : List Writer.Tok) : Dom.Tape := (toks.map wTok).toArray
+
+def wOut {α : Type} : Dom.Out α → Except Writer.WErr α
+  | .ok a => .ok a
+  | .panic => .error .panic
+  | .fuel => .error .fuel
+
+@[simp] theorem wTape_get (toks : List Writer.Tok) (i : Nat) : (wTape toks)[i]? = (toks[i]?).map wTok := by
+  simp [wTape]
+
+@[simp] theorem wTape_size (toks : List Writer.Tok) : (wTape toks).size = toks.length := by simp [wTape]
+
+theorem writer_nextIdxHeader (toks : List Writer.Tok) (idx : Nat) :
+    Writer.nextIdxHeader toks idx = wOut (Dom.nextIdxHeader (wTape toks) idx) := by
+  unfold Writer.nextIdxHeader Dom.nextIdxHeader
+  cases h : toks[idx]? with
+  | none => simp [wOut, h]
+  | some tok => cases tok <;> simp [wOut, wTok, Dom.nextIdxHeaderTok, h]
+
+theorem writer_nextIdxValues (toks : List Writer.Tok) (idx : Nat) :
+    Writer.nextIdxValues toks idx = wOut (Dom.nextIdxValues (wTape toks) idx) := by
+  unfold Writer.nextIdxValues Dom.nextIdxValues
+  cases h : toks[idx]? with
+  | none => simp [wOut, h]
+  | some tok => cases tok <;> simp [wOut, wTok, Dom.nextIdxValuesTok, h]
+
+/-- `next_idx`: identical (value, panic, fuel) for every token list, index and fuel -/
+theorem writer_nextIdxF (toks : List Writer.Tok) : ∀ (f idx : Nat),
+    Writer.nextIdx toks f idx = wOut (Dom.nextIdxF f (wTape toks) idx) := by
+  intro f
+  induction f with
+  | zero => intro idx; simp [Writer.nextIdx, Dom.nextIdxF, wOut]
+  | succ f ih =>
+    intro idx
+    rw [Writer.nextIdx, Dom.nextIdxF]
+    cases h : toks[idx]? with
+    | none => simp [wOut, h]
+    | some tok =>
+      cases tok <;> simp [wOut, wTok, h]
+      · exact ih (idx + 1)
+      · exact writer_nextIdxHeader toks (idx + 1)
+
+/-- with the fuel `writeObjectCore` / `writeValue` pass (`toks.length + 1`) -/
+theorem writer_nextIdx (toks : List Writer.Tok) (idx : Nat) :
+    Writer.nextIdx toks (toks.length + 1) idx = wOut (Dom.nextIdx (wTape toks) idx) := by
+  unfold Dom.nextIdx Dom.fuelOf
+  simpa using writer_nextIdxF toks (toks.length + 1) idx
 
 end Jomini.DomBridge
